@@ -391,7 +391,8 @@ func (x *PoolExec) execMap(op string, a []string) string {
 
 // execTTH: the header codec as a one-operation instance: Encode into a DefaultWriter (pool buffer),
 // Flush into a sink, Decode the frame through a DefaultReader (pool buffer), Release.
-//   rt <seq> <intkey> <intval> <strkey hex> <strval>  =>  ok <frame hex> <seq> <intval hex> <strval hex>
+//
+//	rt <seq> <intkey> <intval> <strkey hex> <strval>  =>  ok <frame hex> <seq> <intval hex> <strval hex>
 func execTTH(op string, a []string) string {
 	if op != "rt" || len(a) != 5 {
 		return "bad-op"
